@@ -9,11 +9,15 @@ PID = "C18"
 LEVEL = "proof"
 PUR = CheckFn("purity", "Model.Purity", "purity_check",
               Tup(List(NN), List(Tup(Nat, NN, NN)), List(NN), List(NN), List(NN), List(NN)))
-CHECKFNS = [PUR]
+from harness.props import _c18_heap as H
+HEAPFN = H.HEAP
+CHECKFNS = [PUR, HEAPFN]
 ASSUMPTIONS = [
     "which torch calls alias or write is runtime behaviour: a TorchFunctionMode monitor records every in-place / out= torch call made during a query and the storage it writes; storages reachable from the arguments before the call are the caller's, all others count as allocated inside the call",
     "deep snapshots (structure text, label tables, domain values, storage bytes, strides, defaults, requires_grad, grad presence) are hashed with sha1 and compared as numbers inside Coq",
     "results are compared with the same call on a fresh deep copy and with a repeated call, after renaming implicit ids by order of appearance",
+    "heap model (Model/Heap.v): the pattern layer (paxes/vaxes, unification; properties C05/C06) is not re-modelled -- every operation that computes a new pattern receives the layout of the result pattern (dense position -> physical position), __getitem__/__iter__ the selected physical positions, and every operation that allocates through to_dense()/binary operations the memory format (stride order) of the new tensor, all computed by the harness from the patterns involved (layouts through the library's own to_dense on an index probe); given these, WHICH storage a result uses, which cells are written and which object a call returns are computed by the model alone and compared with untyped_storage().data_ptr() / object identity / dense values of the real objects after every step",
+    "heap model: a torch Tensor object is not a heap object of its own (no modelled operation changes the metadata of an existing Tensor; requires_grad_ is outside the model); values are small integers (exact in float64/float32) and the in-place maps are neg_, abs_, relu_, nan_to_num_, *= 2, *= 3; copy_ between overlapping views of one storage (unspecified in torch) and binary operations across dtypes are outside the modelled domain (verdict 30, never generated)",
 ]
 
 def h64(b):
@@ -200,8 +204,101 @@ def clone_checks(rng, violations, vals, metas):
         after = [h64(tensor_snap(v)) for v in mt.values()]
         vals.append((sorted(user), list(mon.events), before, after, [], [])); metas.append(dict(kind="clone-multitensor", op=name))
 
+HEAP_WHAT = {
+    1: "clone clause violated on the real objects: after x.clone(), while every operation only mutated objects made by/after the clone (discipline owned_step, sound by C18_clone_independent / C18_mclone_independent), an object older than the clone changed",
+    10: "heap model: a call returned a different object / bool / exception than the model (aliasing of results)",
+    11: "heap model: the partition of the live PatternedTensors by storage differs from the model (an operation shares a storage where the model allocates, or the other way round)",
+    12: "heap model: dense values or default of a live object differ from the model",
+    13: "heap model: the dictionary (key -> object) of a MultiTensor differs from the model",
+    14: "heap model: number or kind of live objects differs from the model",
+    20: "heap model: the model state became ill-formed (harness parameter error)",
+    30: "heap model: operation outside the modelled domain was generated",
+}
+
+def heap_eval(steps):
+    return run_ocaml(HEAPFN, [steps])[0]
+
+def heap_selftest(runs, codes):
+    """(i) a sequence  new; clone; map on the clone  whose recorded observation of the SOURCE is falsified after the map
+    must get verdict 1 (clone clause judged on the observations); (ii) a falsified storage partition must get 11;
+    (iii) a falsified value 12.  Uses freshly executed sequences, not the random ones."""
+    out = {}
+    ops = [dict(op="new", pat="dense", vals=[1, 2], dflt=0, res=[0]), dict(op="clone", x=0, res=[1]), dict(op="map", f=0, x=1, res=[])]
+    kept, steps = H.replay_sequence((2,), ops)
+    def falsify(fn):
+        st = [(w, o, [tuple(x) for x in obs]) for w, o, obs in steps]
+        fn(st); return st
+    def f1(st):
+        w, o, obs = st[2]; k, c, dv, d, di = obs[0]; obs[0] = (k, c, [-v for v in dv], d, di)
+    def f2(st):
+        w, o, obs = st[2]; k, c, dv, d, di = obs[1]; obs[1] = (k, 0, dv, d, di)
+    def f3(st):
+        w, o, obs = st[2]; k, c, dv, d, di = obs[1]; obs[1] = (k, c, [v + 1 for v in dv], d, di)
+    good, c1, c2, c3 = run_ocaml(HEAPFN, [steps, falsify(f1), falsify(f2), falsify(f3)])
+    out = dict(unmodified=good, source_changed_after_inplace_on_clone=c1, clone_shares_storage=c2, wrong_value=c3)
+    out["failed"] = not (good == 0 and out["source_changed_after_inplace_on_clone"] == 1 and out["clone_shares_storage"] == 11 and out["wrong_value"] == 12)
+    return out
+
+def heap_stream(tier, seed):
+    """random operation sequences over PatternedTensors / MultiTensors: real objects vs the Coq heap model"""
+    rng = random.Random(seed * 1009 + 18)
+    nseq = int(os.environ.get("VERIF_N_HEAP", 0)) or (170 if tier == "quick" else 6000)
+    runs = []; crashes = []
+    for i in range(nseq):
+        length = rng.choice([3, 4, 5, 6, 7, 8, 9, 10, 11, 12, 12])
+        shape, ops, steps, excs = H.gen_sequence(rng, length)
+        if len(excs) > len(ops):        # an operation raised although the model predicts no exception
+            crashes.append(excs.pop())
+        runs.append((shape, ops, steps, excs))
+    vals = [r[2] for r in runs]
+    codes, nk = run_model(HEAPFN, vals, seed=seed, coq_sample=4 if tier == "quick" else 25, tag="c18heap")
+    violations = []; nshrunk = {}
+    for cr in crashes:
+        violations.append(Violation("heap model: an operation raised an exception that the model does not predict", case=dict(kind="heap-exception", **cr),
+                                    corr="C18 / corr:heap", failing_input_found=False, call=cr["operation"].get("op")))
+    # self-test of the checker on this run's data: corrupt the observation of one sequence and expect the verdict
+    selftest = heap_selftest(runs, codes)
+    if selftest.get("failed"):
+        violations.append(Violation("heap model checker self-test failed", case=selftest, corr="C18 / corr:heap self-test", failing_input_found=False))
+    ophist = {}; lenhist = {}; exchist = {}; shared_steps = 0; nsteps = 0; on_clone = 0; clones = 0; distinct = set(); alias_steps = 0
+    for (shape, ops, steps, excs), c in zip(runs, codes):
+        lenhist[len(ops)] = lenhist.get(len(ops), 0) + 1
+        sharing = False
+        for a, (wire, out, obs), e in zip(ops, steps, excs):
+            ophist[a["op"]] = ophist.get(a["op"], 0) + 1
+            if e: exchist[a["op"] + ":" + e] = exchist.get(a["op"] + ":" + e, 0) + 1
+            nsteps += 1
+            if any(o[0] == 0 and o[1] != r for r, o in enumerate(obs)): shared_steps += 1; sharing = True
+            held = [r for o in obs if o[0] == 1 for _, r in o[4]]
+            if len(held) != len(set(held)): alias_steps += 1; sharing = True
+            if a["op"] in ("clone", "mclone"): clones += 1
+            if a.get("on_clone"): on_clone += 1
+        if sharing and any(a["op"] in H.MUTATING for a in ops):
+            distinct.add(json.dumps([shape, [{k: v for k, v in a.items() if k not in ("res", "on_clone")} for a in ops]], sort_keys=True))
+        if c == 0: continue
+        nshrunk[c] = nshrunk.get(c, 0) + 1
+        if nshrunk[c] <= 3:          # shrink the first few of every class (finish() reports at most 3 per class)
+            kept, ksteps, kc = H.shrink(shape, ops, c, heap_eval)
+            if ksteps is None: kept, kc = ops, c
+        else:
+            kept, kc = ops, c
+        violations.append(Violation(HEAP_WHAT.get(kc, "heap model verdict %d" % kc),
+                                    case=dict(kind="heap", shape=list(shape), verdict=kc, ops=[{k: v for k, v in a.items() if k != "on_clone"} for a in kept],
+                                              original_length=len(ops), original_verdict=c),
+                                    oracle="owned_step discipline (C18_clone_independent, C18_mclone_independent)" if kc < 10 else None,
+                                    corr="C18 / corr:heap (Model.HeapCheck.heap_check)", failing_input_found=(kc < 10),
+                                    call=" ; ".join(a["op"] for a in kept)))
+    cov = dict(heap_sequences=len(runs), heap_steps=nsteps, heap_op_histogram=dict(sorted(ophist.items())),
+               heap_length_histogram={str(k): v for k, v in sorted(lenhist.items())}, heap_exceptions_modelled=exchist,
+               heap_steps_with_shared_storage=shared_steps, heap_steps_with_object_held_twice=alias_steps,
+               heap_clone_operations=clones, heap_mutations_of_clone_derived_objects=on_clone,
+               heap_distinct_nontrivial=len(distinct), heap_kernel_reevaluated=nk, heap_checker_selftest=selftest,
+               heap_sample=dict(shape=list(runs[0][0]), ops=[{k: v for k, v in a.items() if k not in ("res", "on_clone")} for a in runs[0][1]]) if runs else None)
+    return cov, violations
+
 def run(tier, seed):
     import torch, fggs
+    hcov, hviol = heap_stream(tier, seed)
     rng = random.Random(seed)
     n = int(os.environ.get("VERIF_N", 0)) or (24 if tier == "quick" else 2500)
     violations = []; vals = []; metas = []; distinct = set(); hist = {}
@@ -265,19 +362,29 @@ def run(tier, seed):
         violations.append(Violation(WHAT.get(c, "verdict %d" % c), case=m, oracle="trace_ok / snapshot equality", corr="C18 / corr:purity",
                                     failing_input_found=True, call=m.get("query") or m.get("op")))
     nwrites = sum(sum(1 for e in v[1] if e[0] == 1) for v in vals)
-    cov = dict(evaluations=len(vals), distinct_nontrivial=len(distinct), inplace_writes_monitored=nwrites, query_histogram=hist,
-               rule="random FGG specs x random interleavings (6-10 calls) of sum_product (3 semirings x 2 methods), sum_products, viterbi, factorize_fgg (3 methods), factorize_hrg, conjoin_hrgs, fgg_to_json on the SAME objects, weights with and without requires_grad; per call: deep snapshot before/after, write monitor trace, result vs fresh-copy result and vs first identical call; plus in-place operations on clones of PatternedTensors / MultiTensors; distinct_nontrivial = distinct specs",
-               kernel_reevaluated=nk, samples=[dict(meta=metas[0], trace=vals[0][1][:10])],
-               open_items=["the allocate/alias/write skeletons of multi_solve, solve, fixed_point, newton are not modelled function by function; the monitor observes what torch actually did on the explored histories"])
+    violations.extend(hviol)
+    cov = dict(evaluations=len(vals) + hcov["heap_sequences"], distinct_nontrivial=len(distinct) + hcov["heap_distinct_nontrivial"], inplace_writes_monitored=nwrites, query_histogram=hist,
+               rule="random FGG specs x random interleavings (6-10 calls) of sum_product (3 semirings x 2 methods), sum_products, viterbi, factorize_fgg (3 methods), factorize_hrg, conjoin_hrgs, fgg_to_json on the SAME objects, weights with and without requires_grad; per call: deep snapshot before/after, write monitor trace, result vs fresh-copy result and vs first identical call; plus in-place operations on clones of PatternedTensors / MultiTensors; distinct_nontrivial = distinct specs + distinct heap-stream operation sequences in which two live objects share a storage (or one object is held twice) and something is mutated; heap stream: random sequences (3-12 operations) of clone / in-place maps / copy_ (both branches) / views (T, transpose, permute, flatten, unsqueeze, freshen, detach, expand, __getitem__, __iter__) / to / default_to / to_dense / project / binary operations / MultiTensor __setitem__, __getitem__, get, __delitem__, add_single, +=, -=, maximum_, copy_, clone, allclose over PatternedTensors of 5 shapes and 5 patterns, real objects vs the Coq heap model after every step",
+               kernel_reevaluated=nk, samples=[dict(meta=metas[0], trace=vals[0][1][:10])], **hcov,
+               open_items=["the allocate/alias/write skeletons of multi_solve, solve, fixed_point, newton are not modelled function by function; the monitor observes what torch actually did on the explored histories",
+                           "heap model: reshape/view (torch decides between view and copy by strides), MultiTensor.__add__/__sub__ (compositions of the modelled clone and add_single), requires_grad_ and the einsum/solve layer are not operations of the heap model",
+                           "heap model: preservation of wf_state by every operation is evaluated on every step of the stream, not proved"])
     return cov, violations
 
 def replay(path):
+    body = json.load(open(path))
+    case = body.get("case") or {}
+    if case.get("kind") == "heap":
+        kept, steps = H.replay_sequence(tuple(case["shape"]), case["ops"])
+        c = heap_eval(steps)
+        print("heap model replay: %d operations, verdict %d (%s)" % (len(kept), c, HEAP_WHAT.get(c, "ok" if c == 0 else "?")))
+        return 1 if c != 0 else 0
     print("re-run: bin/check C18 quick with the recorded seed")
     return 1
 
 MANIFEST = dict(
     level="proof",
-    text="Coq: ownership model of in-place updates -- a trace of (allocate | write) events accepted by trace_ok leaves every caller-owned storage unchanged and every written storage was allocated inside the call. A TorchFunctionMode monitor records the actual in-place / out= torch calls of every query and the Coq checker judges the trace; deep snapshots of every argument before/after each call and result digests (vs a fresh deep copy and vs earlier identical calls) are compared in Coq, over random interleavings of all listed queries on the same objects.",
-    note="Partial: which torch calls alias or write is runtime behaviour; the model covers the ownership discipline, the monitor what torch did on the explored histories. Trusted: the monitor's classification of in-place calls (name ends with '_' or out=), sha1 digests, harness.",
-    technique="Coq ownership-model theorem + runtime write monitor and snapshot oracle judged by the extracted checker",
+    text="Coq heap model of the container layer (Model/Heap.v: storages, PatternedTensor objects = storage + cells + layout + default, MultiTensor = key -> object reference; 25 operations transcribed from indices.py / multi.py with their sharing behaviour): C18_frame (every operation mutates only its target objects and writes only their storages), C18_clone_independent / C18_mclone_independent (after a clone EVERY operation sequence that only mutates objects made by/after the clone leaves every older object's denotation unchanged; by a watermark invariant over the sequence), C18_mclone_deep, C18_clone_equal / C18_mclone_equal (a clone denotes what its source denotes), and the witnesses C18_view_shares, C18_getitem_shares, C18_iter_shares, C18_to_same_dtype_shares, C18_copy_into_view_writes_source, C18_add_single_aliases, C18_shallow_clone_refuted (= seeded/C18-d). Correspondence: random operation sequences run on the real objects and through the extracted model; after every step the storage partition (data_ptr), every dense value/default, every dictionary and the identity of every returned object are compared, violations are shrunk to a minimal sequence; the clone clause itself is judged on the real objects by the model's discipline. Also: ownership model of in-place updates -- a trace of (allocate | write) events accepted by trace_ok leaves every caller-owned storage unchanged and every written storage was allocated inside the call. A TorchFunctionMode monitor records the actual in-place / out= torch calls of every query and the Coq checker judges the trace; deep snapshots of every argument before/after each call and result digests (vs a fresh deep copy and vs earlier identical calls) are compared in Coq, over random interleavings of all listed queries on the same objects.",
+    note="Clone clause: proved for all operation sequences on the heap model of the container layer, whose sharing behaviour is compared with the real objects after every step of random sequences (notes/C18.md lists the 25 modelled operations and what is outside: reshape/view, __add__/__sub__, requires_grad_, the einsum/solve layer). Query part: partial -- which torch calls alias or write inside sum_product/viterbi/... is runtime behaviour; the model covers the ownership discipline, the monitor what torch did on the explored histories. Trusted: the pattern-layer parameters (layouts, selected positions, memory format) the harness hands to the heap model, the monitor's classification of in-place calls (name ends with '_' or out=), sha1 digests, harness. Side finding (not a C18 violation): MultiTensor.copy_ raises RuntimeError('dictionary changed size during iteration') whenever the destination has a key the source lacks (after deleting the first such key); modelled as it is.",
+    technique="Coq heap model (separation/watermark invariant by induction over operation sequences) + model-vs-implementation sharing/value comparison with shrinking; Coq ownership-model theorem + runtime write monitor and snapshot oracle judged by the extracted checker",
     design_ref="DESIGN.md section 6, C18")
